@@ -50,6 +50,9 @@ func (cs *caseSpec) key() string {
 	if cs.Var.SmallLimit > 0 {
 		k += "|limit<=4"
 	}
+	if cs.Var.Transient {
+		k += "|transient-db-failure"
+	}
 	return k
 }
 
@@ -67,6 +70,9 @@ func genCases(c *run.Ctx) []caseSpec {
 		cs.Var = variant{Cluster: cluster, Metrics15: nth%4 != 1, TempoV2: nth%3 != 1}
 		r.Intn(4)
 		r.Intn(3)
+		if strings.HasPrefix(pos.Name, "loki.query") && nth%5 == 3 {
+			cs.Var.Transient = true
+		}
 		if strings.HasPrefix(pos.Name, "tempo.search.traceql") {
 			cs.Var.Complex = r.Intn(2) == 0 // the portioned (complex request processor) path
 			if cs.Var.Complex && r.Intn(2) == 0 {
@@ -589,7 +595,10 @@ func judge(c *run.Ctx, rg *rig, pos *position, cs *caseSpec, p *plan, items []*i
 	e2e := of.Status == 200
 	if !e2e {
 		// an error answer cannot be compared; what the scans showed stands
-		if len(idxRej) == 0 {
+		if cs.Var.Transient {
+			// the scripted connection failure surfaced as an error answer: nothing to compare end to end
+			c.Event("error answers to a request whose first data statement failed at the connection level", 1)
+		} else if len(idxRej) == 0 {
 			und(fmt.Sprintf("status %d: %s", of.Status, clip(string(of.Body), 100)))
 		} else {
 			c.Event("error answers explained by a rejected index row", 1)
